@@ -426,6 +426,7 @@ prop('C19', [
     cyts.r_cyts,
     cyts.r_cache_tags,
     cyts.r_loader_release,
+    models.r_zdd,
 ],
     'the apply chain of each C wrapper (parsed with the Cython parser) is '
     'interpreted per alias over Booleans and compared with the '
@@ -532,7 +533,11 @@ MODEL_TEXT = {
            'the graph class (nodes, levels, arcs, the function recovered '
            'by walking the graph).',
     'C19': ' Models: the finalisers of the four Cython `Function` classes '
-           'against a recording library call.',
+           'against a recording library call; the hand-written ZDD '
+           'recursions of cudd_zdd.pyx (`_forall`, `_exist`, `_conjoin`, '
+           '`_disjoin`) read from the lowered Cython tree and '
+           'interpreted against a specification of the CUDD primitives '
+           'they call (352 calls over two index-to-level permutations).',
 }
 NOT_DECIDED = {
     'C01': 'the ITE recursion on diagrams beyond the three-variable '
